@@ -158,6 +158,31 @@ func TestExh_C17(t *testing.T) {
 		}
 		return a
 	}
+	// a peer that registers again on its connection (same / different / invalid identity, at
+	// each phase of the handshake), combined with every Configure / Synchronize outcome
+	outcomes := []Peer{
+		{}, {Mask: 1 << 13}, {Stall: stallCfgErr}, {Stall: stallCfgErr, ErrForm: "status", ErrCode: 12},
+		{Stall: stallCfgHang}, {Stall: stallCfgClose}, {Stall: stallSyncErr},
+	}
+	again := []ExtraReg{
+		{Name: "other", Idx: "11", Phase: phaseInConfigure},
+		{Name: "rereg", Idx: "10", Phase: phaseInConfigure},
+		{Name: "rereg", Idx: "11", Phase: phaseEarly},
+		{Name: "other", Idx: "10", Phase: phaseAfterConfigure},
+		{Name: "other", Idx: "11", Phase: phaseInSynchronize},
+		{Name: "", Idx: "11", Phase: phaseInConfigure},
+	}
+	for _, o := range outcomes {
+		for _, e := range again {
+			p := o
+			p.Name, p.Idx, p.Extra = "rereg", "10", []ExtraReg{e}
+			single(p)
+		}
+		p := o
+		p.Name, p.Idx, p.Extra = "rereg", "10", []ExtraReg{again[2], again[0], again[3]}
+		single(p)
+	}
+	single(Peer{Name: "p", Idx: "10", Stall: stallCfgClose})
 	// the moment the timeouts are set: Adaptation started under T0, the case's timeout set
 	// after Start(); and a further change between two peers
 	late := Peer{Name: "p", Idx: "10", Stall: stallLate}
